@@ -28,6 +28,7 @@ import (
 	"github.com/bandprotocol/chain/v3/cylinder/client"
 	cgroup "github.com/bandprotocol/chain/v3/cylinder/workers/group"
 	"github.com/bandprotocol/chain/v3/pkg/tss"
+	bandtesting "github.com/bandprotocol/chain/v3/testing"
 	tsskeeper "github.com/bandprotocol/chain/v3/x/tss/keeper"
 	tsstypes "github.com/bandprotocol/chain/v3/x/tss/types"
 	"github.com/bandprotocol/chain/v3/zzverif/engine"
@@ -52,6 +53,12 @@ type Cfg struct {
 	// at the recipient's id, i.e. the correct share f_dealer(recipient) is the scalar 0.
 	ZeroDealer    int `json:"zero_share_dealer,omitempty"`
 	ZeroRecipient int `json:"zero_share_recipient,omitempty"`
+	// OlderGroup: before the group under test is proposed, an older group (same members) is proposed
+	// through MsgTransitionGroup at height 2 and driven through the real handlers to FALLEN (honest
+	// rounds 1-2, one unfounded complaint, the others confirm; 3 blocks), which ends its transition;
+	// the group under test is then proposed at height 5.  The older group passes
+	// CreatedHeight+CreationPeriod while the group under test is still inside its own period.
+	OlderGroup bool `json:"older_group,omitempty"`
 }
 
 func (c Cfg) name() string {
@@ -62,6 +69,9 @@ func (c Cfg) name() string {
 	if c.ZeroDealer > 0 {
 		nm += fmt.Sprintf("-zero%dto%d", c.ZeroDealer, c.ZeroRecipient)
 	}
+	if c.OlderGroup {
+		nm += fmt.Sprintf("-older-p%d", c.CreationPeriod)
+	}
 	return nm
 }
 
@@ -70,6 +80,8 @@ type spec struct {
 	mt  *mat
 	// caches of independently computed expected keys, by bc mask
 	exp sync.Map
+	// olderSweep: height whose EndBlock sweeps the older group (0 = no older group)
+	olderSweep int64
 }
 
 func (s *spec) Config() any { return s.cfg }
@@ -185,6 +197,9 @@ func (s *spec) Build(w *engine.World) (sdk.Context, engine.Model) {
 	tssh.ApplyParams(w, ctx, tssh.Params{CreationPeriod: s.cfg.CreationPeriod})
 	n := s.cfg.N
 	accs := tssh.Accounts(n+1, int64(4000+10*n+s.cfg.T))
+	if s.cfg.OlderGroup {
+		ctx = s.buildOlderGroup(w, ctx, accs[:n])
+	}
 	g, res := tssh.ProposeGroup(w, ctx, accs[:n], uint64(s.cfg.T), ctx.BlockTime().Add(time.Hour))
 	tssh.Must(res, "transition group")
 	g.GenRound1()
@@ -221,6 +236,51 @@ func (s *spec) Build(w *engine.World) (sdk.Context, engine.Model) {
 		}
 	}
 	return ctx, m
+}
+
+// buildOlderGroup proposes an older group with the same members and drives it to FALLEN through the
+// real handlers: honest rounds 1 and 2, then member 1 files an unfounded complaint about member 2's
+// (correct) share and the others confirm.  Its failure ends the bandtss transition, so that the group
+// under test can be proposed through MsgTransitionGroup afterwards.
+func (s *spec) buildOlderGroup(w *engine.World, ctx sdk.Context, accs []bandtesting.Account) sdk.Context {
+	step := func() {
+		next, br := w.Block(ctx, 1, 3*time.Second)
+		if br.Halt != "" {
+			panic("halt while building the older group: " + br.Halt)
+		}
+		ctx = next
+	}
+	a, res := tssh.ProposeGroup(w, ctx, accs, uint64(s.cfg.T), ctx.BlockTime().Add(time.Hour))
+	tssh.Must(res, "older group: transition group")
+	created := int64(w.App.TSSKeeper.MustGetGroup(ctx, a.ID).CreatedHeight)
+	a.GenRound1()
+	for i := range accs {
+		tssh.Must(w.Tx(ctx, 0, a.Round1Msg(i)), "older group: round 1")
+	}
+	step()
+	a.GenRound2()
+	for i := range accs {
+		tssh.Must(w.Tx(ctx, 0, a.Round2Msg(i)), "older group: round 2")
+	}
+	step()
+	setOwnKeys(a)
+	sig, keySym, err := tss.SignComplaint(a.R1[0].OneTimePubKey, a.R1[1].OneTimePubKey, a.R1[0].OneTimePrivKey)
+	if err != nil {
+		panic(err)
+	}
+	tssh.Must(w.Tx(ctx, 0, tsstypes.NewMsgComplain(a.ID, []tsstypes.Complaint{tsstypes.NewComplaint(1, 2, keySym, sig)}, accs[0].Address.String())), "older group: complaint")
+	for i := 1; i < len(accs); i++ {
+		tssh.Must(w.Tx(ctx, 0, a.ConfirmMsg(i)), "older group: confirm")
+	}
+	step()
+	if got := chainStatus(w, ctx, a.ID); got != "FALLEN" {
+		panic("older group is in status " + got)
+	}
+	s.olderSweep = created + int64(s.cfg.CreationPeriod)
+	if ctx.BlockHeight() >= s.olderSweep {
+		panic("older group already swept before the group under test exists")
+	}
+	return ctx
 }
 
 // ---- alphabet ----------------------------------------------------------------------------------
@@ -458,6 +518,9 @@ func (s *spec) block(w *engine.World, ctx sdk.Context, m *model, st *engine.Step
 	if br.Halt != "" {
 		st.Violate("block-halt", "%s", br.Halt)
 		return ctx
+	}
+	if s.olderSweep != 0 && height == s.olderSweep {
+		st.Saw("older-group-swept-while-group-in:" + prev)
 	}
 	if m.St != prev {
 		label := "status:" + strings.ToLower(m.St)
@@ -841,6 +904,38 @@ func (s *spec) monitors(w *engine.World, ctx sdk.Context, m *model, st *engine.S
 		s.thresholdCheck(st, grp.PubKey, members, n, t)
 	}
 
+	// before CreatedHeight+CreationPeriod the submissions the group's progress is gated on are all there
+	if !m.Cleaned {
+		cnt := func(xs []string) uint64 {
+			c := uint64(0)
+			for _, x := range xs {
+				if x != "" {
+					c++
+				}
+			}
+			return c
+		}
+		var lost []string
+		if _, err := k.GetDKGContext(ctx, gid); err != nil {
+			lost = append(lost, "dkg-context")
+		}
+		if uint64(len(k.GetRound1Infos(ctx, gid))) != cnt(m.R1) || k.GetRound1InfoCount(ctx, gid) != cnt(m.R1) {
+			lost = append(lost, "round1")
+		}
+		if uint64(len(k.GetRound2Infos(ctx, gid))) != cnt(m.R2) || k.GetRound2InfoCount(ctx, gid) != cnt(m.R2) {
+			lost = append(lost, "round2")
+		}
+		if uint64(len(k.GetConfirms(ctx, gid))+len(k.GetAllComplainsWithStatus(ctx, gid))) != cnt(m.R3) || k.GetConfirmComplainCount(ctx, gid) != cnt(m.R3) {
+			lost = append(lost, "round3")
+		}
+		if cnt(m.R1) > 0 && len(k.GetAllAccumulatedCommits(ctx, gid)) != t {
+			lost = append(lost, "accumulated-commits")
+		}
+		if len(lost) > 0 {
+			st.Violate("submissions-not-as-accepted-before-expiry:"+strings.Join(lost, ","), "after %s at height %d (group created at %d, period %d, status %s): accepted R1=%v R2=%v R3=%v", ev, ctx.BlockHeight(), m.Created, s.cfg.CreationPeriod, now, m.R1, m.R2, m.R3)
+		}
+	}
+
 	// expiry
 	if m.Cleaned {
 		var left []string
@@ -911,6 +1006,9 @@ func configs(quick bool) []Cfg {
 	extra := []Cfg{
 		{N: 3, T: 2, MaxDev: 2, CreationPeriod: period, Kinds: []string{"x"}, Probes: false, Depth: depth(3), StartRound3: true},
 		{N: 2, T: 2, MaxDev: 1, CreationPeriod: period, Kinds: []string{"x", "p"}, Probes: false, Depth: depth(2), ZeroDealer: 1, ZeroRecipient: 2},
+		// (c) an older FALLEN group (created at height 2) is swept at the end of height 7 while the group
+		// under test (created at height 5, period 5) is in round 1, 2 or 3
+		{N: 2, T: 2, MaxDev: 1, CreationPeriod: 5, Kinds: []string{"x"}, Probes: false, Depth: depth(2) + 1, OlderGroup: true},
 	}
 	if quick {
 		for _, nt := range [][2]int{{2, 1}, {2, 2}, {3, 2}} {
@@ -964,7 +1062,8 @@ func init() {
 			r.Required = []string{"active:all-honest", "keys-consistent", "fallen:bad-dealer-caught", "fallen:false-complainant-marked",
 				"expired@R1", "expired@R2", "expired@R3", "complain_success", "complain_failed",
 				"r3:h:confirm:ok", "r3:h:complain:ok", "r3:fc:ok", "r3:ks:ok", "r3:sg:ok", "r3:nr:ok", "r1:bc:ok", "r2:x:ok", "r2:s:ok",
-				"unfounded-complaint-against-already-flagged-member", "zero-share-verified-by-recipient", "unfounded-complaint-about-zero-share-failed"}
+				"unfounded-complaint-against-already-flagged-member", "zero-share-verified-by-recipient", "unfounded-complaint-about-zero-share-failed",
+				"older-group-swept-while-group-in:R1", "older-group-swept-while-group-in:R2", "older-group-swept-while-group-in:R3"}
 			if !r.Quick() {
 				r.Required = append(r.Required, "active:with-deviators", "r3:cfx:ok", "r2:k:ok")
 			}
